@@ -154,6 +154,45 @@ Theorem C08_ecdsa_coordinator_does_release : forall (S : Type) (n coord : nat) (
 Proof. exact ecdsa_coordinator_does_release. Qed.
 Print Assumptions C08_ecdsa_coordinator_does_release.
 
+(* the signature reaches whoever reads the process's result channel, whenever they read: for every
+   channel capacity (0 = the unbuffered channels of the EVM / Substrate executors) and every number
+   n >= 1 of receive operations, performed at whatever time, the reader gets exactly the value
+   processEndMessage releases, once *)
+Theorem C08_result_reaches_reader : forall (S : Type) (coordinator : bool) (sig : S) (cap n : nat),
+  (1 <= n)%coq_nat -> result_channel coordinator sig cap n = (release coordinator sig :: nil)%list.
+Proof. exact result_reaches_reader. Qed.
+Print Assumptions C08_result_reaches_reader.
+
+Theorem C08_ecdsa_session_reader_gets : forall (S : Type) (coord : nat) (sig : S) (i cap n : nat),
+  (1 <= n)%coq_nat -> got_sig (result_channel (Nat.eqb i coord) sig cap n) = Nat.eqb i coord.
+Proof. exact ecdsa_session_reader_gets. Qed.
+Print Assumptions C08_ecdsa_session_reader_gets.
+
+(* the judge of the release cases accepts the model and means: signature received iff coordinator *)
+Theorem C08_release_ok_model : forall (S : Type) (coordinator : bool) (sig : S) (cap n : nat),
+  (1 <= n)%coq_nat -> release_ok coordinator (got_sig (result_channel coordinator sig cap n)) = true.
+Proof. exact release_ok_model. Qed.
+Print Assumptions C08_release_ok_model.
+
+Theorem C08_release_ok_sound : forall coordinator got,
+  release_ok coordinator got = true -> (got = true <-> coordinator = true).
+Proof. exact release_ok_sound. Qed.
+Print Assumptions C08_release_ok_sound.
+
+(* a send that gives up instead of waiting loses the value on an unbuffered channel without a parked
+   reader (the model tells the two apart) *)
+Theorem C08_nonblocking_send_loses : forall (V : Type) (v : V) (n : nat),
+  reader_receives (send_nonblocking 0 false v) n = nil.
+Proof. exact nonblocking_send_loses. Qed.
+Print Assumptions C08_nonblocking_send_loses.
+
+(* FROST: whatever the number k of the attempt (Run called again on the same process object by the
+   coordinator's retry), the process signs with the share tweaked exactly once *)
+Theorem C08_frost_retry_same_share : forall q neg share tweak k,
+  frost_attempt_share q neg share tweak k = derive_share q neg share tweak.
+Proof. exact frost_retry_same_share. Qed.
+Print Assumptions C08_frost_retry_same_share.
+
 Theorem C08_sign_ok_sound : forall ecdsa must coord completed released valid,
   sign_ok ecdsa must coord completed released valid = true ->
   (completed = true ->
@@ -232,5 +271,7 @@ Example C08_nonvacuous :
   sort_parties (10 :: 20 :: 30 :: 40 :: nil)%Z (20 :: 40 :: nil)%Z = SpOk (20 :: 40 :: 10 :: 30 :: nil)%Z /\
   validate_start_params 1 (5 :: 3 :: nil)%Z (3 :: 9 :: 5 :: nil)%Z (5 :: 3 :: 7 :: nil)%Z = VOk /\
   List.forallb (ideal_wf 7 3) (IStage (3 :: 1 :: nil)%Z (1 :: 2 :: 3 :: nil)%Z 1 :: ISign false 2 1
-                               :: IStage (3 :: 4 :: 2 :: nil)%Z (2 :: 3 :: 4 :: 5 :: nil)%Z 2 :: ISign true 3 0 :: nil) = true.
+                               :: IStage (3 :: 4 :: 2 :: nil)%Z (2 :: 3 :: 4 :: 5 :: nil)%Z 2 :: ISign true 3 0 :: nil) = true /\
+  result_channel true 5%Z 0 3 = (Some 5%Z :: nil)%list /\ result_channel false 5%Z 2 1 = (None :: nil)%list /\
+  derive_in_run_share 7 false 3 2 1 <> frost_attempt_share 7 false 3 2 1.
 Proof. by vm_compute. Qed.
